@@ -312,25 +312,30 @@ theorem find_tail {α : Type} (v : kademlia.NodeInfoT → Go.M Bool) (hVal : ∀
   exact ⟨q, by rw [hq]; rfl⟩
 
 theorem find_tail_k {α : Type} (v : kademlia.NodeInfoT → Go.M Bool) (hVal : ∀ x, ∃ b, v x = .ok b)
-    (nodes init : List kademlia.NodeInfoT) (kk : Go.Out (List kademlia.NodeInfoT) α → Go.M α) (Φ : α → Prop)
-    (h : ∀ q, ∃ r, kk (.done q) = .ok r ∧ Φ r) :
+    (nodes init : List kademlia.NodeInfoT) (hinit : ∀ x ∈ init, v x = .ok true)
+    (kk : Go.Out (List kademlia.NodeInfoT) α → Go.M α) (Φ : α → Prop)
+    (h : ∀ q, (∀ x ∈ q, v x = .ok true) → ∃ r, kk (.done q) = .ok r ∧ Φ r) :
     ∃ r, (Go.forEach nodes 0 init (fun (_ : Int) (node2 : kademlia.NodeInfoT) (st : List kademlia.NodeInfoT) => do
             let t_9 ← v node2
             (Except.ok (if t_9 = true then Go.Ctl.next (st ++ [node2]) else Go.Ctl.next st) : Go.M (Go.Ctl (List kademlia.NodeInfoT) α)))
           >>= kk) = Except.ok r ∧ Φ r := by
-  obtain ⟨q, hq, _⟩ := Go.forEach_inv (ρ := α) (fun _ : List kademlia.NodeInfoT => True)
+  obtain ⟨q, hq, hqv⟩ := Go.forEach_inv (ρ := α) (fun q : List kademlia.NodeInfoT => ∀ x ∈ q, v x = .ok true)
     (fun (_ : Int) (node2 : kademlia.NodeInfoT) (st : List kademlia.NodeInfoT) => do
             let t_9 ← v node2
             (Except.ok (if t_9 = true then Go.Ctl.next (st ++ [node2]) else Go.Ctl.next st) : Go.M (Go.Ctl (List kademlia.NodeInfoT) α)))
-    nodes 0 init trivial (by
-      intro j x s _ _
+    nodes 0 init hinit (by
+      intro j x s _ hs
       obtain ⟨b, hb⟩ := hVal x
       simp only [hb, bind_ok]
       cases b
-      · exact ⟨s, rfl, trivial⟩
-      · exact ⟨s ++ [x], rfl, trivial⟩)
+      · exact ⟨s, rfl, hs⟩
+      · refine ⟨s ++ [x], rfl, ?_⟩
+        intro y hy
+        rcases List.mem_append.1 hy with hy | hy
+        · exact hs y hy
+        · rw [List.mem_singleton.1 hy]; exact hb)
   rw [hq]
-  exact h q
+  exact h q hqv
 
 /-- what `DHTFindNode` guarantees about the node it reports as closest: it was passed to the callback (visited), and
     no visited node is nearer to the target -/
@@ -345,7 +350,9 @@ theorem DHTFindNode_good_some (params : kademlia.DHTFindNodeParamsT) (v : kademl
     (hv : params.Validate = some v)
     (hAsk : ∀ n r, ∃ a, params.Ask n r = .ok a) (hVal : ∀ x, ∃ b, v x = .ok b)
     (res : kademlia.DHTFindNodeResultT) (err : Go.Err) (h : kademlia.DHTFindNode params = .ok (res, err)) :
-    (∃ hv' visited, FindGood params hv' res visited) ∧ (err.isSome ↔ res.Closest ≠ params.Target) := by
+    (∃ hv' visited, FindGood params hv' res visited ∧
+      ∀ id ∈ visited, ∃ x : kademlia.NodeInfoT, x.ID = id ∧ (x ∈ params.Initial ∨ v x = .ok true)) ∧
+    (err.isSome ↔ res.Closest ≠ params.Target) := by
   unfold kademlia.DHTFindNode at h
   simp only [hv, Option.isNone_some, Bool.false_eq_true, if_false] at h
   obtain ⟨st, hit, hrest⟩ := bind_ok_inv h
@@ -354,7 +361,8 @@ theorem DHTFindNode_good_some (params : kademlia.DHTFindNodeParamsT) (v : kademl
       ((s.1 = false ∨ Kad.distanceLt (nb params.Target) (nb x.ID) (nb s.2.Closest) = true) →
         r.1.1 = true ∧ r.1.2.Closest = x.ID) ∧
       (¬ (s.1 = false ∨ Kad.distanceLt (nb params.Target) (nb x.ID) (nb s.2.Closest) = true) →
-        r.1.1 = s.1 ∧ r.1.2.Closest = s.2.Closest) := by
+        r.1.1 = s.1 ∧ r.1.2.Closest = s.2.Closest) ∧
+      (∀ y ∈ r.2.1, v y = .ok true) := by
     intro s x
     rw [hfn]
     obtain ⟨hc, rs⟩ := s
@@ -365,16 +373,26 @@ theorem DHTFindNode_good_some (params : kademlia.DHTFindNodeParamsT) (v : kademl
         not_true_eq_false, not_false_eq_true, forall_const, false_implies, implies_true, and_true, true_and, reduceCtorEq] <;>
       (repeat' split) <;>
       first
-        | exact ⟨_, rfl, rfl, rfl⟩
-        | (apply find_tail_k v hVal; intro q; exact ⟨_, rfl, rfl, rfl⟩)
-  have hinv : ∃ seen, FindGood params st.1 st.2 seen := by
-    refine dhtIterate_ok_inv hit (fun s x => ⟨_, (hspec s x).choose_spec.1⟩) (fun _ => True)
-      (fun seen s => FindGood params s.1 s.2 seen) ?_ (fun _ _ => trivial) (.inl ⟨rfl, rfl, rfl⟩)
-    intro seen s node r hr hRs _ _
-    obtain ⟨r', hr', h1, h2⟩ := hspec s node
+        | exact ⟨_, rfl, ⟨rfl, rfl⟩, by simp⟩
+        | (apply find_tail_k v hVal _ _ (by simp); intro q hq; exact ⟨_, rfl, ⟨rfl, rfl⟩, hq⟩)
+  have hinv : ∃ seen, FindGood params st.1 st.2 seen ∧
+      ∀ id ∈ seen, ∃ x : kademlia.NodeInfoT, x.ID = id ∧ (x ∈ params.Initial ∨ v x = .ok true) := by
+    refine dhtIterate_ok_inv hit (fun s x => ⟨_, (hspec s x).choose_spec.1⟩)
+      (fun x => x ∈ params.Initial ∨ v x = .ok true)
+      (fun seen s => FindGood params s.1 s.2 seen ∧
+        ∀ id ∈ seen, ∃ x : kademlia.NodeInfoT, x.ID = id ∧ (x ∈ params.Initial ∨ v x = .ok true)) ?_
+      (fun x hx => .inl hx) ⟨.inl ⟨rfl, rfl, rfl⟩, by intro id hid; cases hid⟩
+    intro seen s node r hr hRs0 hPnode _
+    obtain ⟨hRs, hseenP⟩ := hRs0
+    obtain ⟨r', hr', h1, h2, h3⟩ := hspec s node
     rw [hr] at hr'
     cases hr'
-    refine ⟨?_, fun _ _ => trivial⟩
+    refine ⟨⟨?_, ?_⟩, fun y hy => .inr (h3 y hy)⟩
+    rotate_left
+    · intro id hid
+      rcases List.mem_cons.1 hid with hid | hid
+      · exact ⟨node, hid.symm, hPnode⟩
+      · exact hseenP id hid
     by_cases hcond : s.1 = false ∨ Kad.distanceLt (nb params.Target) (nb node.ID) (nb s.2.Closest) = true
     · obtain ⟨e1, e2⟩ := h1 hcond
       right
@@ -411,15 +429,15 @@ theorem DHTFindNode_good_some (params : kademlia.DHTFindNodeParamsT) (v : kademl
         rcases List.mem_cons.1 hc with hc | hc
         · rw [hc]; exact hnlt
         · exact hall c hc
-  obtain ⟨seen, hG⟩ := hinv
+  obtain ⟨seen, hG, hVis⟩ := hinv
   simp only [pure_eq] at hrest
   by_cases hne : st.2.Closest = params.Target
   · simp only [hne, ne_eq, not_true_eq_false, decide_false, Bool.false_eq_true, if_false] at hrest
     cases hrest
-    exact ⟨⟨_, _, hG⟩, ⟨fun h => (by cases h), fun h => absurd hne h⟩⟩
+    exact ⟨⟨_, _, hG, hVis⟩, ⟨fun h => (by cases h), fun h => absurd hne h⟩⟩
   · simp only [ne_eq, hne, not_false_eq_true, decide_true, if_true] at hrest
     cases hrest
-    exact ⟨⟨_, _, hG⟩, ⟨fun _ => hne, fun _ => rfl⟩⟩
+    exact ⟨⟨_, _, hG, hVis⟩, ⟨fun _ => hne, fun _ => rfl⟩⟩
 
 
 /-- with no validator the translation installs the accept-all one: same run -/
@@ -434,7 +452,10 @@ theorem DHTFindNode_good (params : kademlia.DHTFindNodeParamsT)
     (hAsk : ∀ n r, ∃ a, params.Ask n r = .ok a)
     (hVal : ∀ x, ∃ b, (params.Validate.getD (fun _ => pure true)) x = .ok b)
     (res : kademlia.DHTFindNodeResultT) (err : Go.Err) (h : kademlia.DHTFindNode params = .ok (res, err)) :
-    (∃ hv' visited, FindGood params hv' res visited) ∧ (err.isSome ↔ res.Closest ≠ params.Target) := by
+    (∃ hv' visited, FindGood params hv' res visited ∧
+      ∀ id ∈ visited, ∃ x : kademlia.NodeInfoT, x.ID = id ∧
+        (x ∈ params.Initial ∨ (params.Validate.getD (fun _ => pure true)) x = .ok true)) ∧
+    (err.isSome ↔ res.Closest ≠ params.Target) := by
   cases hv : params.Validate with
   | some v =>
     refine DHTFindNode_good_some params v hv hAsk ?_ res err h
